@@ -1,1 +1,5 @@
+import QibProofs.Properties.C01
+import QibProofs.Properties.C02
+import QibProofs.Properties.C03
+import QibProofs.Properties.C16
 import QibProofs.Properties.C17
